@@ -499,7 +499,7 @@ class BpWorld(object):
             self.emit('SendError', exc=type(err).__name__, expected=bool(expect_error))
         self.boundary('send')
 
-    def send(self, octets, payload=None, expect_error=False, unfinished_crc=False):
+    def send(self, octets, payload=None, expect_error=False, unfinished_crc=False, unnumbered=False):
         ''' A local application asks the agent to send the bundle encoded in ``octets``.
         unfinished_crc: as an application builds it - CRC types chosen, CRC values not computed yet. '''
         rec, bun = abstract_bundle(octets)
@@ -508,6 +508,11 @@ class BpWorld(object):
         self.emit('Send', b=rec)
         try:
             ctr = BundleContainer(Bundle(octets))
+            if unnumbered:
+                # as an application may build it: block numbers left to the agent (fix_block_num)
+                for blk in ctr.bundle.blocks:
+                    blk.fields.pop('block_num', None)
+                    blk._rx_items = None
             if unfinished_crc:
                 for blk in [ctr.bundle.primary] + list(ctr.bundle.blocks):
                     blk.fields.pop('crc_value', None)
